@@ -1,13 +1,39 @@
 ----------------------------- MODULE ScanSelect -----------------------------
 (***************************************************************************)
-(* Which entries a scan owes a callback (shared by Scanner.tla and         *)
-(* FetcherTrace.tla).                                                      *)
+(* Which entries a scan owes a callback (shared by Scanner.tla,            *)
+(* ScannerFanout.tla, ScanClasses.tla and FetcherTrace.tla).               *)
 (*                                                                         *)
-(* Entry classes, by how the (pre-)certificate inside the entry parses:    *)
-(*   "clean"    without complaint                                          *)
-(*   "nonfatal" the parser yields the certificate together with non-fatal  *)
-(*              errors only (real logs are full of such certificates)      *)
-(*   "fatal"    it is not a certificate at all                             *)
+(* C16: "the scanner invokes the certificate or precertificate callback    *)
+(* exactly once for every entry its matcher selects".  Log CONTENT is a    *)
+(* dimension of that statement: real logs are full of (pre-)certificates   *)
+(* that are not quite what the standards say.  An entry is described by    *)
+(* the DEFECTS its (pre-)certificate carries; a defect belongs to the      *)
+(* LAYER at which a reader meets it:                                       *)
+(*   "der"    the outer structure (Certificate / TBSCertificate) is BER    *)
+(*            that a strict DER decoder refuses and a lenient decoder      *)
+(*            reads unambiguously (a padded INTEGER, an empty OID)         *)
+(*   "field"  the content of one field breaks that field's own syntax or   *)
+(*            profile (an iPAddress of three octets, an empty access       *)
+(*            description list, '@' in a PrintableString); the             *)
+(*            certificate around it reads                                  *)
+(*   "fatal"  no certificate can be read from the bytes at all (cut short, *)
+(*            trailing octets, month 13, a SET where a SEQUENCE belongs)   *)
+(* Defects of the layers "der" and "field" are TOLERABLE.                  *)
+(*                                                                         *)
+(* What the reader makes of an entry (ParseClass):                         *)
+(*   "clean"    no defect                                                  *)
+(*   "nonfatal" tolerable defects only, any number, of one layer or of     *)
+(*              several layers at once: the certificate is read, together  *)
+(*              with complaints                                            *)
+(*   "fatal"    at least one fatal defect (whatever else)                  *)
+(* Named clause TolerableComposes: the property does not say what          *)
+(* "selects" means for a certificate with defects; the code's reader       *)
+(* (x509.ParseCertificate / ParseTBSCertificate, x509.IsFatal) reads every *)
+(* certificate whose defects are tolerable one by one, so no COMBINATION   *)
+(* of tolerable defects makes an entry unreadable - the class of an entry  *)
+(* is a function of whether it has a fatal defect, not of how many         *)
+(* complaints the layers add up to.                                        *)
+(*                                                                         *)
 (* Matcher types: a "matcher" (scanner.Matcher) is asked about the parsed  *)
 (* certificate / precertificate, a "leaf" matcher (scanner.LeafMatcher)    *)
 (* about the raw leaf.                                                     *)
@@ -17,9 +43,60 @@
 (* a fatally broken entry, so it selects none of those; an entry that      *)
 (* parses with non-fatal errors is put to the matcher like a clean one.    *)
 (***************************************************************************)
-Classes == {"clean", "nonfatal", "fatal"}
+LOCAL INSTANCE Naturals
+LOCAL INSTANCE FiniteSets
+LOCAL INSTANCE Sequences
+
+(* ------------------------------------------------ the defect catalogue *)
+DerDefects   == {"serial-pad", "version-pad", "extid-empty"}
+FieldDefects == {"san-ip3", "aia-empty", "sia-empty", "eku-empty", "name-printable"}
+FatalDefects == {"cut", "trailing", "time-month13", "outer-set"}
+TolerableDefects == DerDefects \cup FieldDefects
+AllDefects == TolerableDefects \cup FatalDefects
+LayerOf(d) == IF d \in DerDefects THEN "der" ELSE IF d \in FieldDefects THEN "field" ELSE "fatal"
+
+\* the profile of a set of defects: how many of each tolerable layer, whether a fatal one
+ProfileOf(ds) == [der |-> Cardinality(ds \cap DerDefects), field |-> Cardinality(ds \cap FieldDefects),
+                  fatal |-> ds \cap FatalDefects # {}]
+Profiles == [der : 0..2, field : 0..2, fatal : BOOLEAN]
+
+\* what the reader makes of it
+ParseClassOf(p) == IF p.fatal THEN "fatal" ELSE IF p.der + p.field = 0 THEN "clean" ELSE "nonfatal"
+
+\* the name of a profile: its layers, "fatal" first ("clean" for none) - what traces and exported worlds carry
+Rep(s, n) == IF n = 0 THEN <<>> ELSE IF n = 1 THEN <<s>> ELSE <<s, s>>
+RECURSIVE Join(_)
+Join(parts) == IF Len(parts) = 1 THEN parts[1] ELSE parts[1] \o "+" \o Join(Tail(parts))
+ClassName(p) == LET parts == (IF p.fatal THEN <<"fatal">> ELSE <<>>) \o Rep("der", p.der) \o Rep("field", p.field)
+                IN IF parts = <<>> THEN "clean" ELSE Join(parts)
+
+\* the classes the models and worlds use (a class is a profile, written as its name)
+ClassProfiles == {p \in Profiles : p.der + p.field <= 3 /\ (p.fatal => p.der + p.field <= 2)}
+Classes == {ClassName(p) : p \in ClassProfiles}
+\* (a table, so that TLC evaluates the names once)
+ClassTable == [cl \in Classes |-> CHOOSE p \in ClassProfiles : ClassName(p) = cl]
+ProfileOfClass(class) == ClassTable[class]
+ParseClass(class) == ParseClassOf(ProfileOfClass(class))
+NonFatalClasses == {cl \in Classes : ParseClass(cl) = "nonfatal"}
+FatalClasses == {cl \in Classes : ParseClass(cl) = "fatal"}
+
 MatcherTypes == {"matcher", "leaf"}
 
-IsAsked(class, mtype) == mtype = "leaf" \/ class # "fatal"
+IsAsked(class, mtype) == mtype = "leaf" \/ ParseClass(class) # "fatal"
 Selected(wants, class, mtype) == wants /\ IsAsked(class, mtype)
+
+(* ------------------------------------------------------------------ laws *)
+\* names are unambiguous
+ClassNamesLaw == \A p, q \in ClassProfiles : ClassName(p) = ClassName(q) => p = q
+
+\* TolerableComposes: the union of two readable descriptions is readable; a fatal defect is never healed by company
+TolerableComposes ==
+  \A p, q \in ClassProfiles :
+     LET pq == [der |-> p.der + q.der, field |-> p.field + q.field, fatal |-> p.fatal \/ q.fatal] IN
+     /\ (ParseClassOf(p) # "fatal" /\ ParseClassOf(q) # "fatal") => ParseClassOf(pq) # "fatal"
+     /\ (ParseClassOf(p) = "fatal" \/ ParseClassOf(q) = "fatal") => ParseClassOf(pq) = "fatal"
+
+\* a Matcher-type matcher is asked about exactly the readable entries, a leaf matcher about all
+AskedLaw == \A cl \in Classes : /\ IsAsked(cl, "leaf")
+                                /\ IsAsked(cl, "matcher") = (ParseClass(cl) \in {"clean", "nonfatal"})
 =============================================================================
